@@ -77,7 +77,7 @@ def build_wrapper(case):
         img = nb.Nifti1Image.from_bytes(open(pth, 'rb').read())
         import shutil
         shutil.rmtree(d, ignore_errors=True)
-        assert data.dtype.kind == 'f' and float(data.flat[1]) == 0.75, 'scaled fixture not as expected'
+        assert data.dtype.kind == 'f' and (data.size < 2 or float(data.flat[1]) == 0.75), 'scaled fixture not as expected'
     return NiftiWrapper(img), data, aff
 
 
